@@ -16,7 +16,7 @@ def default_algo(seed):
 
 class Dm14World:
     def __init__(self, seed, seedkey=False, algo=None, srv_algo=None, seeds=None, windows=(255, 255), latency=(0.0001, 0.005), respond_delay=None,
-                 with_server=True, cli_addr=CLI, srv_addr=SRV):
+                 with_server=True, cli_addr=CLI, srv_addr=SRV, second_client=None):
         self.W = W = World(seed, 'j1939-21', latency)
         self.sim = W.sim
         self.j = j = W.j1939
@@ -25,6 +25,14 @@ class Dm14World:
         self.cli_addr, self.srv_addr = cli_addr, srv_addr
         self.ca_c = W.ca(self.C, cli_addr, identity_number=1)
         self.cli = j.MemoryAccess(self.ca_c)
+        self.clients = [self.cli]
+        self.client_addrs = [cli_addr]
+        if second_client is not None:
+            # another requester on its own stack, using the same server one transaction after the other
+            self.C2 = W.stack('C2', max_cmdt_packets=windows[0])
+            self.ca_c2 = W.ca(self.C2, second_client, identity_number=5)
+            self.clients.append(j.MemoryAccess(self.ca_c2))
+            self.client_addrs.append(second_client)
         self.log = []                 # application-level event log: (t, what, details)
         self.ctx = dict(nbytes=0, read_data=None, accept=True, respond=('ok',), respond_delay=respond_delay)
         self.proceed_calls = []
@@ -39,7 +47,8 @@ class Dm14World:
             self.srv.set_proceed(self._proceed)
             self.srv.set_notify(self._notify)
             if seedkey:
-                self.cli.set_seed_key_algorithm(algo or default_algo)
+                for c in self.clients:
+                    c.set_seed_key_algorithm(algo or default_algo)
                 self.srv.set_seed_key_algorithm(srv_algo or algo or default_algo)
                 it = iter(seeds) if seeds else None
 
@@ -102,7 +111,8 @@ class Dm14World:
                 pre = op.get('pre')
                 if pre:
                     pre(self)
-                obj = self.cli if op.get('via', via) == 'facade' else self.cli.query
+                cl = self.clients[op.get('client', 0)]
+                obj = cl if op.get('via', via) == 'facade' else cl.query
                 r = dict(op=op, t0=self.sim.now, ret=None, exc=None, exc_type=None, n_proceed=len(self.proceed_calls), n_respond=len(self.responds),
                          n_notify=len(self.notify_calls),
                          f0=len(self.W.bus.frames))
